@@ -160,6 +160,13 @@ if __name__ == "__main__":
     a = sys.argv[1:]
     if a[0] == "table":
         print(table())
+    elif a[0] == "design":      # refresh the table between the markers of DESIGN.md section 9
+        import re
+        dp = os.path.join(VERIF, "DESIGN.md")
+        txt = open(dp).read()
+        txt = re.sub(r"<!-- seeded-table-begin -->.*?<!-- seeded-table-end -->",
+                     lambda m: "<!-- seeded-table-begin -->\n" + table().strip() + "\n<!-- seeded-table-end -->", txt, flags=re.S)
+        open(dp, "w").write(txt)
     elif a[0] == "verify":
         print(json.dumps(verify(a[1], skip_tests="--skip-tests" in a), indent=1))
     elif a[0] == "run":
